@@ -1,6 +1,7 @@
 """Failing-input search for C17 (heavy-hitter / threshold tables) on the real code; model-free."""
 import core
 from corr.bloom import strategy
+from search.common import noise_touch
 
 CLEAR = "<clear>"  # a pseudo key: clear() at this point of the history
 
@@ -9,8 +10,10 @@ def _hh(ops, w, d, num, strat="fnv"):
     from probables import HeavyHitters
 
     hh = HeavyHitters(num_hitters=num, width=w, depth=d, hash_function=strategy(strat)[0])
+    twin = HeavyHitters(num_hitters=num + 1, width=w + 3, depth=d + 1, hash_function=strategy(strat)[0])
     last = {}
     for step, (key, n) in enumerate(ops):
+        noise_touch(twin, step)
         if key == CLEAR:
             hh.clear()
             last = {}
@@ -36,9 +39,11 @@ def _st(ops, w, d, thr, strat="fnv"):
     from probables import StreamThreshold
 
     st = StreamThreshold(threshold=thr, width=w, depth=d, hash_function=strategy(strat)[0])
+    twin = StreamThreshold(threshold=thr + 1, width=w + 3, depth=d + 1, hash_function=strategy(strat)[0])
     last = {}
     cnt = {}
     for step, (kind, key, n) in enumerate(ops):
+        noise_touch(twin, step)
         if key == CLEAR:
             st.clear()
             last, cnt = {}, {}
